@@ -4,6 +4,7 @@ import (
 	"fmt"
 	"go/token"
 	"go/types"
+	"sort"
 	"strings"
 
 	"golang.org/x/tools/go/ssa"
@@ -762,5 +763,101 @@ func sliceRangeElemCarried(fn *ssa.Function, overSlice func(ssa.Value) bool) (nl
 			}
 		}
 	}
+	return
+}
+
+// PARTS-INDEPENDENT: in a loop that collects several parts of each element into separate accumulators
+// (`acc = append(acc, elem.F…)`), what decides whether part F of the element is collected is a test of F only — never
+// a test of another part (an if/else or switch chain over the parts makes one part shadow the other).
+type partGuard struct {
+	app    *ssa.Call
+	field  *types.Var
+	guard  guard
+	others []string
+}
+
+func partsGuardedByOtherParts(fn *ssa.Function, owner *types.Named) (napp int, out []partGuard) {
+	fieldsIn := func(v ssa.Value) map[*types.Var]bool {
+		set := map[*types.Var]bool{}
+		seen := map[ssa.Value]bool{}
+		var visit func(v ssa.Value, d int)
+		visit = func(v ssa.Value, d int) {
+			if v == nil || d > 12 || seen[v] {
+				return
+			}
+			seen[v] = true
+			if fa, ok := v.(*ssa.FieldAddr); ok {
+				if ownerOfFieldAddr(fa) == owner {
+					set[fieldVarOfAddr(fa)] = true
+					return
+				}
+			}
+			if _, ok := v.(*ssa.Phi); ok {
+				return
+			}
+			if al, ok := v.(*ssa.Alloc); ok { // the array behind a variadic argument list
+				for _, ref := range *al.Referrers() {
+					if ia, ok := ref.(*ssa.IndexAddr); ok {
+						for _, r2 := range *ia.Referrers() {
+							if st, ok := r2.(*ssa.Store); ok {
+								visit(st.Val, d+1)
+							}
+						}
+					}
+				}
+				return
+			}
+			if in, ok := v.(ssa.Instruction); ok {
+				for _, op := range in.Operands(nil) {
+					if *op != nil {
+						visit(*op, d+1)
+					}
+				}
+			}
+		}
+		visit(v, 0)
+		return set
+	}
+	loops := naturalLoops(fn)
+	instrs(fn, func(in ssa.Instruction) {
+		c, ok := in.(*ssa.Call)
+		if !ok || !isBuiltin(c, "append") || len(c.Call.Args) < 2 {
+			return
+		}
+		fs := fieldsIn(c.Call.Args[1])
+		if len(fs) != 1 {
+			return
+		}
+		var f *types.Var
+		for k := range fs {
+			f = k
+		}
+		var inner *loopInfo
+		for _, li := range loops {
+			li := li
+			if li.body[c.Block()] && (inner == nil || len(li.body) < len(inner.body)) {
+				inner = &li
+			}
+		}
+		if inner == nil {
+			return
+		}
+		napp++
+		for _, g := range guardsOf(c.Block()) {
+			if g.at == nil || !inner.body[g.at.Block()] || g.at.Block() == inner.header {
+				continue
+			}
+			var others []string
+			for of := range fieldsIn(g.cond) {
+				if of != f {
+					others = append(others, of.Name())
+				}
+			}
+			if len(others) > 0 {
+				sort.Strings(others)
+				out = append(out, partGuard{c, f, g, others})
+			}
+		}
+	})
 	return
 }
